@@ -32,6 +32,32 @@ CHECKS = {
             "reference-evaluated AES-CBC/SHA-256 (Trace_V3)",
             "Exhaustive in-model pad/size arithmetic; byte-exact conformance of the real V3 codec in both directions for all lengths, "
             "keys and counters, and every single-bit flip of responses decided by TLC.", "5 C05"),
+    "C06": ("TLA+ LanSession.tla (client x device x network state machine, one action per await-to-await block) with the property monitor "
+            "SessionMon.tla: TLC explores every interleaving with all handshake reply classes and checks the C06 clauses (MC_LanSession); "
+            "TLC-simulated behaviours (Gen_LanSession) are replayed into the real LAN object by a controlled scheduler; recorded executions "
+            "are validated by TLC against the model (Trace_LanSession) and the monitor (Trace_Mon), where the spec decides from "
+            "reference-evaluated observations (type, length, SHA-256 proof) whether a reply is genuine",
+            "Exhaustive bounded model check of the handshake logic; every single-bit flip, every length, every type nibble, other-key, "
+            "error and silent replies on first / expired / live sessions through Device.authenticate and LAN.authenticate with TLC judging "
+            "outcome, stored credentials, wire contents and acceptance of the following exchange.", "3.2, 5 C06"),
+    "C07": ("TLA+ LanSession.tla + SessionMon.tla: TLC explores all histories of <= 2-3 calls over {send, authenticate good/bad, connect "
+            "results, deliveries/losses in any order, timers, cancel, peer close, 12 h jump, lifetime jump} and checks the C07 clauses "
+            "(MC_LanSession); TLC-generated behaviours (all 1-call by BFS, deeper by -simulate) are replayed into the real LAN object; "
+            "these and random walks are validated by TLC against the model (Trace_LanSession) and the monitor (Trace_Mon) over what the "
+            "device decoded with its own keys; > 65,536-packet sessions by Trace_Ctr",
+            "Exhaustive bounded model check of session discipline; thousands of TLC-generated and random histories executed on the real "
+            "code with every clause evaluated at every event; one connection carrying more than 65,536 packets.", "3.2, 5 C07"),
+    "C08": ("TLA+ LanSession.tla + SessionMon.tla: TLC checks transmission bounds, stop-on-response, timeout-after-exactly-retries and "
+            "recovery for budgets 1..4, V2 and V3 (MC_LanSession); ALL one-call behaviours of the C08 alphabet per budget are generated by "
+            "TLC (Gen_LanSession!GNextC08) and replayed into the real code; directed single/pair fault plans through LAN.send and "
+            "AirConditioner.refresh; every execution validated by TLC (Trace_Mon, Trace_LanSession)",
+            "Exhaustive bounded model check per retry budget; all answer patterns per budget and all single faults / fault pairs followed "
+            "by a prompt device executed on the real code, V2 and V3, LAN and device level, judged by TLC at every event.", "3.2, 5 C08"),
+    "C09": ("TLA+ LanSession.tla + SessionMon.tla: outcome alphabet of the design closed under every reply class at every phase "
+            "(MC_LanSession); grammar-aware byte-level adversarial peer scripts at every phase on the real code, with TLC (Trace_Mon) "
+            "judging the exception type of every call and that device-level operations do not raise",
+            "Model check of the outcome alphabet; thousands of grammar-aware mutated V2/V3 peer messages at handshake-wait, read-wait and "
+            "queued phases through LAN.send, LAN.authenticate, Device.authenticate and AirConditioner.refresh, outcomes judged by TLC.", "3.2, 5 C09"),
     "C10": ("TLA+ AcCommand.tla: TLC proves VendorDecode40 o SetStateBody = id on exhaustive per-field slices (MC_C10); "
             "TLC judges every 0x40 frame produced by the real apply() against the vendor layout (Trace_C10)",
             "Bounded-exhaustive model check of the layout plus TLC-judged frames from the real code for every field value, "
